@@ -170,7 +170,7 @@ struct Coord {
   std::map<std::pair<int, std::pair<int, int>>, std::deque<std::shared_ptr<Msg>>> chan;  // (comm,(src,dst)) -> in flight
   FILE* log = nullptr; long t = 0; long max_steps = 5000000; int eager_pct = 50; long logbytes = 256; long idle_false = 0;
   std::string policy = "uniform"; int racer = 0; long livelock_k = 400000; long since_progress = 0; long n_deliver = 0, n_complete = 0, n_answer = 0, n_false = 0;
-  std::string verdict = "ok"; time_t t_start = time(nullptr); long wall_budget = 900;
+  std::string verdict = "ok"; time_t t_start = time(nullptr); long wall_budget = 900; long immediate_run = 0, spin_k = 1500000;
 
   long log_written = 0, log_budget = 768L << 20;   // runaway handlers must not fill the disk
   void L(const char* fmt, ...) { if (!log) return; if (log_written > log_budget) { if (verdict == "ok") verdict = "log-budget"; return; }
@@ -239,6 +239,8 @@ struct Coord {
   // handle one request from a running rank; returns true if the rank stays running (immediate call)
   bool handle(int r) {
     RankSt& R = rk[r]; Hdr& h = R.h; auto& pl = R.payload; Hdr out{};
+    // a rank that keeps issuing non-blocking requests (log lines, posts) without ever reaching a blocking MPI call spins
+    if (h.op < OP_TEST && ++immediate_run > spin_k && verdict == "ok") verdict = "livelock";
     if (h.op == OP_ISEND || h.op == OP_IRECV || h.op == OP_ICOLL || h.op == OP_LOG || h.op == OP_COLL || h.op == OP_FINALIZE) since_progress = 0;
     switch (h.op) {
       case OP_COMM_SIZE: out.a[0] = (int)comms[h.a[0]].members.size(); reply(r, out); return true;
@@ -341,6 +343,7 @@ struct Coord {
       if (verdict != "ok") break;
       if (++t > max_steps) { verdict = "step-budget"; break; }
       if (++since_progress > livelock_k) { verdict = "livelock"; break; }
+      immediate_run = 0;
       std::vector<Act> acts;
       for (int r = 0; r < n; ++r) if (rk[r].state == 1) { bool f; if (answerable(r, f)) acts.push_back(Act{f ? 1 : 0, r, {}, 0, 0}); }
       for (auto& kv : chan) if (!kv.second.empty()) acts.push_back(Act{2, 0, kv.first, 0, 0});
@@ -367,7 +370,7 @@ int main(int argc, char** argv) {
   C.rng.s = (e = getenv("SIMMPI_SEED")) ? strtoull(e, 0, 10) : 1; if ((e = getenv("SIMMPI_EAGER_PCT"))) C.eager_pct = atoi(e);
   if ((e = getenv("SIMMPI_MAX_STEPS"))) C.max_steps = atol(e); if ((e = getenv("SIMMPI_LOG_BYTES"))) C.logbytes = atol(e);
   if ((e = getenv("SIMMPI_LOG"))) C.log = fopen(e, "w");
-  if ((e = getenv("SIMMPI_POLICY"))) C.policy = e; if ((e = getenv("SIMMPI_WALL_S"))) C.wall_budget = atol(e); if ((e = getenv("SIMMPI_MAX_LOG_MB"))) C.log_budget = atol(e) << 20; if ((e = getenv("SIMMPI_LIVELOCK"))) C.livelock_k = atol(e);
+  if ((e = getenv("SIMMPI_POLICY"))) C.policy = e; if ((e = getenv("SIMMPI_WALL_S"))) C.wall_budget = atol(e); if ((e = getenv("SIMMPI_SPIN"))) C.spin_k = atol(e); if ((e = getenv("SIMMPI_MAX_LOG_MB"))) C.log_budget = atol(e) << 20; if ((e = getenv("SIMMPI_LIVELOCK"))) C.livelock_k = atol(e);
   C.racer = (int)(C.rng.s % (uint64_t)C.n);
   signal(SIGPIPE, SIG_IGN);
   C.rk.resize(C.n); C.comms[MPI_COMM_WORLD].members.resize(C.n); C.comms[MPI_COMM_WORLD].seq.assign(C.n, 0);
